@@ -5,10 +5,12 @@ CONSTANTS
   MaxK = 4
   MaxRes = 12
   StoreBins = 3
+  PinnedPred = FALSE
 INVARIANT TableAsDeclared
 INVARIANT RebinIsGroup
 INVARIANT SpansRespectRows
 INVARIANT OutputIsBlockAggregate
 INVARIANT PredecessorsDivide
+INVARIANT BasesAreCopiedNotRederived
 INVARIANT RefusalIsNonDerivability
 CHECK_DEADLOCK FALSE
